@@ -123,7 +123,7 @@ V('n-ifelif-to-membership', ['C01', 'C02', 'C09'], [(H, """            if (label
             elif ("Z" == label):
                 homeZ = True
 """)], neutral=True)
-V('n-format-to-fstring', ['C01', 'C02', 'C09'], [(S, """            "G92 E{e}".format(e=self.position.E_AXIS.nativeToLogical())""", """            f"G92 E{self.position.E_AXIS.nativeToLogical()}\"""")], neutral=True)
+V('n-format-to-fstring', ['C01', 'C02', 'C09', 'C07'], [(S, """            "G92 E{e}".format(e=plainDecimal(self.position.E_AXIS.nativeToLogical()))""", """            f"G92 E{plainDecimal(self.position.E_AXIS.nativeToLogical())}\"""")], neutral=True)
 V('n-helper-extracted', ['C01', 'C02', 'C09'], [(S, """        if (not isMove):
             for val in xyPairs:
                 if (val is not None):
@@ -156,3 +156,343 @@ V('n-renamed-locals', ['C01', 'C02', 'C09'], [(S, """        returnCommands = []
         if (pendingRetraction is not None):
             pendingRetraction.allowCombine = False
 """)], neutral=True)
+
+G = 'GcodeParser.py'
+SP = 'StreamProcessor.py'
+RR = 'RectangularRegion.py'
+CR = 'CircularRegion.py'
+PO = 'Position.py'
+EG = 'ExcludedGcode.py'
+
+# ---------------------------------------------------------------- C03
+V('c03-z-order-swapped', ['C03'], [(S, """        if (newZ > oldZ):
+            # Move Z axis _up_ to new position""", """        if (newZ < oldZ):
+            # Move Z axis _up_ to new position"""), (S, """        if (newZ < oldZ):
+            # Move Z axis _down_ to new position""", """        if (newZ > oldZ):
+            # Move Z axis _down_ to new position""")])
+V('c03-g92e-dropped', ['C03', 'C04'], [(S, """        returnCommands.append(
+            # Set logical extruder position
+            "G92 E{e}".format(e=plainDecimal(self.position.E_AXIS.nativeToLogical()))
+        )
+
+        newZ""", """        newZ""")])
+V('c03-z-from-lastposition', ['C03'], [(S, """            z=plainDecimal(newZ)""", """            z=plainDecimal(oldZ)""")])
+V('c03-excluding-not-cleared', ['C03', 'C15'], [(S, """        self.excluding = False
+
+        # Moving back into printable region, process recovery command(s) if needed""", """        # Moving back into printable region, process recovery command(s) if needed""")])
+V('c03-feedrate-not-converted', ['C03'], [(S, """            f=plainDecimal(self.feedRate / self.feedRateUnitMultiplier),
+            z=plainDecimal(newZ)""", """            f=plainDecimal(self.feedRate),
+            z=plainDecimal(newZ)""")])
+V('c03-nativetological-without-offset', ['C03', 'C08'], [(A, """        if (absoluteMode):
+            value -= self.offset + self.homeOffset
+        else:
+            value -= self.current
+
+        return value / self.unitMultiplier""", """        if (absoluteMode):
+            value -= self.homeOffset
+        else:
+            value -= self.current
+
+        return value / self.unitMultiplier""")])
+V('c03-f1-reverted', ['C03'], [(S, """            if (self.excluding and not wasExcluding):
+                # The move entering the region is not executed, so the tool physically stays at the
+                # Z height it had before this command (used to order the Z move when exiting)
+                self.lastPosition.Z_AXIS.current = priorZ
+""", "")])
+
+# ---------------------------------------------------------------- C04 / C05
+V('c04-direction-sign-flipped', ['C04', 'C05', 'C01'], [(R, "            amount = self.extrusionAmount * direction", "            amount = -self.extrusionAmount * direction")])
+V('c04-restore-dropped', ['C04'], [(R, """            eAxis.current -= amount
+
+""", """
+""")])
+V('c05-recoverexcluded-not-cleared', ['C05', 'C04'], [(S, """            self.lastRetraction.recoverExcluded = False
+            if (not self.lastRetraction.firmwareRetract):""", """            if (not self.lastRetraction.firmwareRetract):""")])
+V('c05-lastretraction-not-cleared', ['C05', 'C04'], [(S, """        self.lastRetraction = None
+
+        if (isRecoveryCommand and lastRetraction.recoverExcluded):""", """        if (isRecoveryCommand and lastRetraction.recoverExcluded):""")])
+V('c05-owed-for-extruding-moves', ['C05', 'C04'], [(S, """                if (isRecoveryCommand):
+                    self.lastRetraction.recoverExcluded = True""", """                if (isRecoveryCommand or True):
+                    self.lastRetraction.recoverExcluded = True""")])
+V('c05-second-inregion-retraction-executed', ['C05'], [(S, """        elif (self.excluding):
+            # A retraction was encountered that would have normally been combined, but the current""", """        elif (self.excluding and self.lastRetraction.firmwareRetract):
+            # A retraction was encountered that would have normally been combined, but the current""")])
+V('c05-g10-g11-swapped', ['C05'], [(R, """            cmd = "G11" if (direction == -1) else "G10\"""", """            cmd = "G11" if (direction == 1) else "G10\"""")])
+V('c05-fw-params-from-wrong-command', ['C05'], [(R, """            params = GCODE_PARAMS_REGEX.sub("\\\\1", self.originalCommand)""", """            params = GCODE_PARAMS_REGEX.sub("\\\\1", cmd)""")])
+
+# ---------------------------------------------------------------- C06
+V('c06-clear-dropped', ['C06'], [(S, """            self.pendingCommands.clear()
+""", "")])
+V('c06-first-overwrites', ['C06'], [(S, """            if (not (gcode in self.pendingCommands)):
+                self.pendingCommands[gcode] = cmd""", """            self.pendingCommands[gcode] = cmd""")])
+V('c06-last-keeps-position', ['C06'], [(S, """            self.pendingCommands.pop(gcode, None)
+            self.pendingCommands[gcode] = cmd""", """            self.pendingCommands[gcode] = cmd""")])
+V('c06-exit-script-before-pending', ['C06', 'C03'], [(S, """        returnCommands = []
+
+        if (self.pendingCommands):
+            for gcode, cmdArgs in self.pendingCommands.items():""", """        returnCommands = []
+        if (self.exitingExcludedRegionGcode is not None):
+            returnCommands.extend(self.exitingExcludedRegionGcode)
+
+        if (self.pendingCommands):
+            for gcode, cmdArgs in self.pendingCommands.items():"""), (S, """            self.pendingCommands.clear()
+
+        if (self.exitingExcludedRegionGcode is not None):
+            returnCommands.extend(self.exitingExcludedRegionGcode)
+
+        return returnCommands""", """            self.pendingCommands.clear()
+
+        return returnCommands""")])
+V('c06-resetstate-keeps-pending', ['C06', 'C10'], [(S, """        self.pendingCommands = OrderedDict()
+
+    def getRegion""", """        if (clearExcludedRegions):
+            self.pendingCommands = OrderedDict()
+
+    def getRegion""")])
+V('c06-merge-loses-earlier-params', ['C06'], [(S, """            pendingArgs = self.pendingCommands.pop(gcode, {})""", """            self.pendingCommands.pop(gcode, None)
+            pendingArgs = {}""")])
+
+# ---------------------------------------------------------------- C07
+V('c07-g-format', ['C07'], [(R, """                "G92 E{e}".format(e=plainDecimal(eAxis.nativeToLogical()))""", """                "G92 E{e:g}".format(e=eAxis.nativeToLogical())""")])
+V('c07-bare-str', ['C07'], [(S, """                x=plainDecimal(self.position.X_AXIS.nativeToLogical()),""", """                x=self.position.X_AXIS.nativeToLogical(),""")])
+V('c07-helper-only-lowercase-e', ['C07'], [('CommonMixin.py', """    if (isinstance(value, float) and (("e" in text) or ("E" in text))):""", """    if (isinstance(value, float) and ("E" in text)):""")])
+V('c07-duplicate-letter', ['C07'], [(S, """            "G0 F{f} X{x} Y{y}".format(""", """            "G0 F{f} X{x} X{y}".format(""")])
+V('c07-setter-str', ['C07'], [(G, "                    key += plainDecimal(val)", "                    key += str(val)")])
+
+# ---------------------------------------------------------------- C08
+V('c08-g20-three-axes', ['C08'], [(PO, """        self.Z_AXIS.setUnitMultiplier(unitMultiplier)
+        self.E_AXIS.setUnitMultiplier(unitMultiplier)""", """        self.Z_AXIS.setUnitMultiplier(unitMultiplier)""")])
+V('c08-g91-skips-z', ['C08'], [(PO, """        self.Y_AXIS.setAbsoluteMode(absolute)
+        self.Z_AXIS.setAbsoluteMode(absolute)""", """        self.Y_AXIS.setAbsoluteMode(absolute)""")])
+V('c08-logicaltonative-drops-homeoffset', ['C08', 'C03'], [(A, """            value += self.offset + self.homeOffset""", """            value += self.offset""")])
+V('c08-logical-passed-to-region-test', ['C08', 'C01'], [(S, """            if (not anyExcluded and self.isPointExcluded(x, y)):""", """            if (not anyExcluded and self.isPointExcluded(xyPairs[index], xyPairs[index + 1])):""")])
+V('c08-feed-multiplier-not-set', ['C08'], [(S, """        self.feedRateUnitMultiplier = unitMultiplier
+        self.position.setUnitMultiplier(unitMultiplier)""", """        self.position.setUnitMultiplier(unitMultiplier)""")])
+V('c08-direct-write-of-logical', ['C08'], [(H, """                    position.E_AXIS.setLogicalPosition(value)""", """                    position.E_AXIS.current = value""")])
+
+# ---------------------------------------------------------------- C10 / C11
+V('c10-field-dropped-from-reset', ['C10'], [(S, """        self.lastRetraction = None
+        self.lastPosition = None""", """        self.lastPosition = None""")])
+V('c10-new-field-only-in-init', ['C10'], [(S, """        self.numExcludedCommands += 1
+        return IGNORE_GCODE_CMD""", """        self.numExcludedCommands += 1
+        self.totalIgnored = getattr(self, "totalIgnored", 0) + 1
+        return IGNORE_GCODE_CMD""")])
+V('c10-print-started-without-reset', ['C10', 'C11'], [(P, """            self._logger.info("Printing started")
+            self.state.resetState()
+            self._activePrintJob = True""", """            self._logger.info("Printing started")
+            self._activePrintJob = True""")])
+V('c10-reset-aliases-position', ['C10'], [(S, """        self.position = Position()
+        self.feedRate = 0""", """        self.position = self.position if hasattr(self, "position") else Position()
+        self.feedRate = 0""")])
+V('c11-paused-ends-print', ['C11'], [(P, """                Events.PRINT_DONE,
+                Events.PRINT_FAILED,""", """                Events.PRINT_DONE,
+                Events.PRINT_PAUSED,
+                Events.PRINT_FAILED,""")])
+V('c11-cancelling-removed', ['C11'], [(P, """                Events.PRINT_CANCELLING,
+""", "")])
+V('c11-hook-guard-removed', ['C11'], [(P, """        if (self.isActivePrintJob):
+            self.gcodeHandlers.handleAtCommand(commInstance, cmd, parameters)""", """        self.gcodeHandlers.handleAtCommand(commInstance, cmd, parameters)""")])
+V('c11-file-selected-keeps-regions', ['C11', 'C13'], [(P, """            self._logger.info("File selected, resetting internal state")
+            self.state.resetState(True)""", """            self._logger.info("File selected, resetting internal state")
+            self.state.resetState()""")])
+V('c11-clear-unconditional', ['C11'], [(P, """            if (self.clearRegionsAfterPrintFinishes):
+                self.state.resetState(True)""", """            if (self.clearRegionsAfterPrintFinishes or event == Events.PRINT_DONE):
+                self.state.resetState(True)""")])
+
+# ---------------------------------------------------------------- C12 / C13
+V('c12-delete-guard-inverted', ['C12'], [(P, """        if (not self.mayShrinkRegionsWhilePrinting and self.isActivePrintJob):
+            return "Cannot delete region while printing", 409""", """        if (self.mayShrinkRegionsWhilePrinting and self.isActivePrintJob):
+            return "Cannot delete region while printing", 409""")])
+V('c12-update-flag-or', ['C12'], [(P, """                newRegion,
+                not self.mayShrinkRegionsWhilePrinting and self.isActivePrintJob""", """                newRegion,
+                not (self.mayShrinkRegionsWhilePrinting or self.isActivePrintJob)""")])
+V('c12-roles-swapped', ['C12'], [(S, """                if (mustContainOldRegion and not newRegion.containsRegion(region)):""", """                if (mustContainOldRegion and not region.containsRegion(newRegion)):""")])
+V('c12-store-before-check', ['C12'], [(S, """            if (region.id == newRegion.id):
+                if (mustContainOldRegion""", """            if (region.id == newRegion.id):
+                self.excludedRegions[index] = newRegion
+                if (mustContainOldRegion""")])
+V('c12-region-setter', ['C12'], [(RR, """    def containsPoint(self, x, y):""", """    def moveTo(self, x, y):
+        self.x2 = x + (self.x2 - self.x1)
+        self.y2 = y + (self.y2 - self.y1)
+        self.x1 = x
+        self.y1 = y
+
+    def containsPoint(self, x, y):""")])
+V('c13-notification-removed', ['C13'], [(P, """        if (self.state.deleteRegion(idToDelete)):
+            self._notifyExcludedRegionsChanged()""", """        self.state.deleteRegion(idToDelete)""")])
+V('c13-notification-before-mutation', ['C13'], [(P, """            self.state.addRegion(region)
+            self._notifyExcludedRegionsChanged()""", """            self._notifyExcludedRegionsChanged()
+            self.state.addRegion(region)""")])
+V('c13-anonymous-check-after-dispatch', ['C13'], [(P, """        if current_user.is_anonymous():
+            return "Insufficient rights", 403
+
+        self._logger.debug("API command received: %s", data)
+
+        if (command == "deleteExcludeRegion"):
+            return self._handleDeleteExcludeRegion(data.get("id"))""", """        self._logger.debug("API command received: %s", data)
+
+        if (command == "deleteExcludeRegion"):
+            return self._handleDeleteExcludeRegion(data.get("id"))
+
+        if current_user.is_anonymous():
+            return "Insufficient rights", 403""")])
+V('c13-collision-check-removed', ['C13'], [(S, """        if (self.getRegion(region.id) is None):
+            self._logger.info("New exclude region added: %s", region)
+            self.excludedRegions.append(region)
+        else:
+            raise ValueError("Region id collision")""", """        self._logger.info("New exclude region added: %s", region)
+        self.excludedRegions.append(region)""")])
+V('c13-get-sorted', ['C13'], [(P, """        return flask.jsonify(
+            excluded_regions=[region.toDict() for region in self.state.excludedRegions]""", """        return flask.jsonify(
+            excluded_regions=[region.toDict() for region in sorted(self.state.excludedRegions, key=lambda r: r.id)]""")])
+
+# ---------------------------------------------------------------- C14 / C15
+V('c14-actions-swapped', ['C14'], [(H, """                    if (entry.action == ENABLE_EXCLUSION):
+                        self.state.enableExclusion(cmd + " " + parameters)
+                    elif (entry.action == DISABLE_EXCLUSION):""", """                    if (entry.action == DISABLE_EXCLUSION):
+                        self.state.enableExclusion(cmd + " " + parameters)
+                    elif (entry.action == ENABLE_EXCLUSION):""")])
+V('c14-disable-without-exit', ['C14'], [(S, """            if (self.excluding):
+                returnCommands = self.exitExcludedRegion(context)
+        else:
+            self._logger.debug("Exclusion already disabled, NOP: context=%s", context)""", """        else:
+            self._logger.debug("Exclusion already disabled, NOP: context=%s", context)""")])
+V('c14-streaming-test-removed', ['C14'], [(H, """        if (commInstance.isStreaming()):
+            return False
+
+""", "")])
+V('c14-exit-commands-not-sent', ['C14'], [(H, """                            commInstance.sendCommand(command)
+""", """                            pass
+""")])
+V('c15-condition-weakened', ['C15'], [(P, """            if (self.isActivePrintJob and self.state.excluding):""", """            if (self.isActivePrintJob or self.state.excluding):""")])
+V('c15-script-name-changed', ['C15'], [(P, """(scriptName == "afterPrintDone")""", """(scriptName == "afterPrintCancelled")""")])
+V('c15-commands-as-postfix', ['C15'], [(P, """                return (self.state.exitExcludedRegion("Print done"), None)""", """                return (None, self.state.exitExcludedRegion("Print done"))""")])
+
+# ---------------------------------------------------------------- C16 / C17
+V('c16-endpoint-not-appended', ['C16', 'C01'], [(H, """        rval += [endX, endY]
+""", """        rval += [centerX + math.cos(angle + angularIncrement) * radius, centerY + math.sin(angle + angularIncrement) * radius]
+""")])
+V('c16-range-short', ['C16'], [(H, "        for dummy in range(1, numSegments):", "        for dummy in range(1, numSegments - 1):")])
+V('c16-ceil-to-floor', ['C16'], [(H, "numSegments = max(1, int(math.ceil(arcLength / MM_PER_ARC_SEGMENT)))", "numSegments = max(1, int(math.floor(arcLength / MM_PER_ARC_SEGMENT)))")])
+V('c16-segment-length-5', ['C16'], [(H, "MM_PER_ARC_SEGMENT = 1\n", "MM_PER_ARC_SEGMENT = 5\n")])
+V('c16-clockwise-adjust-inverted', ['C16'], [(H, """        if (clockwise):
+            angularTravel -= TWO_PI""", """        if (not clockwise):
+            angularTravel -= TWO_PI""")])
+V('c16-start-angle-wrong', ['C16'], [(H, "        angle = math.atan2(-j, -i)", "        angle = math.atan2(j, i)")])
+V('c16-sin-cos-different-angle', ['C16'], [(H, "centerY + math.sin(angle) * radius]", "centerY + math.sin(angle + angularIncrement) * radius]")])
+V('c17-strict-comparison', ['C17', 'C12'], [(RR, "        return (x >= self.x1) and (x <= self.x2) and (y >= self.y1) and (y <= self.y2)", "        return (x >= self.x1) and (x < self.x2) and (y >= self.y1) and (y <= self.y2)")])
+V('c17-normalisation-removed', ['C17'], [(RR, """            if (y2 < y1):
+                y1, y2 = y2, y1
+""", "")])
+V('c17-rect-rect-wrong-side', ['C17', 'C12'], [(RR, """                (otherRegion.x2 <= self.x2) and""", """                (otherRegion.x1 <= self.x2) and""")])
+V('c17-cx-without-radius', ['C17', 'C12'], [(RR, """                (otherRegion.cx + otherRegion.r <= self.x2) and""", """                (otherRegion.cx <= self.x2) and""")])
+V('c17-circle-circle-minus', ['C17', 'C12'], [(CR, """+ otherRegion.r
+            return (dist <= self.r)""", """- otherRegion.r
+            return (dist <= self.r)""")])
+V('c17-circle-strict', ['C17'], [(CR, "        return self.r >= math.hypot(x - self.cx, y - self.cy)", "        return self.r > math.hypot(x - self.cx, y - self.cy)")])
+
+# ---------------------------------------------------------------- C18 / C19 / C20
+V('c18-catchall-plus', ['C18'], [(G, '''    r"[^;\\r\\n]*?" +''', '''    r"[^;\\r\\n]+?" +''')])
+V('c18-cr-dropped-from-eol', ['C18'], [(G, '''PAT_EOL = r"(\\r\\n|\\r|\\n|\\Z)"''', '''PAT_EOL = r"(\\r\\n|\\n|\\Z)"''')])
+V('c18-tiling-group-noncapturing', ['C18'], [(G, '''    r")(" + PAT_WHITESPACE + ")" +''', '''    r")(?:" + PAT_WHITESPACE + ")" +''')])
+V('c18-fulltext-order', ['C18'], [(G, """            self.trailingWhitespace,
+            "" if (self.comment is None) else self.comment,""", """            "" if (self.comment is None) else self.comment,
+            self.trailingWhitespace,""")])
+V('c18-length-wrong', ['C18'], [(G, "        self.length = match.end() - self.offset", "        self.length = match.end() - match.start() - 1")])
+V('c19-no-leading-dot', ['C19'], [(G, '''PAT_SIGNED_FLOAT = r"[-+]?[0-9]*\\.?[0-9]+"''', '''PAT_SIGNED_FLOAT = r"[-+]?[0-9]+\\.?[0-9]*"''')])
+V('c19-upper-removed', ['C19'], [(G, """                name = name.upper()
+""", "")])
+V('c19-x-routed-to-y', ['C19'], [(H, """                elif (label == "X"):
+                    x = value
+                elif (label == "Y"):
+                    y = value
+                elif (label == "Z"):
+                    z = value
+
+        return self.state.processLinearMoves(cmd, extruderPosition, feedRate, z, x, y)""", """                elif (label == "X"):
+                    x = value
+                elif (label == "Y"):
+                    y = value
+                elif (label == "Z"):
+                    z = value
+
+        return self.state.processLinearMoves(cmd, extruderPosition, feedRate, z, y, x)""")])
+V('c19-dict-first-wins', ['C19'], [(G, """            for name, value in self.parameterItems():
+                params[name] = value""", """            for name, value in self.parameterItems():
+                params.setdefault(name, value)""")])
+V('c19-m206-y-to-x', ['C19'], [(H, """                elif (label == "Y"):
+                    position.Y_AXIS.setHomeOffset(value)""", """                elif (label == "Y"):
+                    position.X_AXIS.setHomeOffset(value)""")])
+V('c20-shallow-copy', ['C20'], [(SP, "            copy.deepcopy(gcodeHandlers.state),", "            copy.copy(gcodeHandlers.state),")])
+V('c20-live-handlers-stored', ['C20'], [(SP, """        self.gcodeHandlers = GcodeHandlers(
+            copy.deepcopy(gcodeHandlers.state),
+            self._logger
+        )""", """        self.gcodeHandlers = gcodeHandlers""")])
+V('c20-eol-not-appended', ['C20'], [(SP, """            if (lines):
+                return self.eol.join(lines) + self.eol""", """            if (lines):
+                return self.eol.join(lines)""")])
+V('c20-stale-source', ['C20'], [(SP, """        return source
+
+    @staticmethod""", """        return parsed.source
+
+    @staticmethod""")])
+V('c20-include-comment', ['C20'], [(SP, """                includeComment=False,
+                includeEol=False
+            ),
+            parsed.gcode,""", """                includeComment=True,
+                includeEol=False
+            ),
+            parsed.gcode,""")])
+
+# ---------------------------------------------------------------- more neutral refactors
+V('n-exit-fstrings', ['C03', 'C07', 'C06'], [(S, """        moveZcmd = "G0 F{f} Z{z}".format(
+            f=plainDecimal(self.feedRate / self.feedRateUnitMultiplier),
+            z=plainDecimal(newZ)
+        )""", """        feed = plainDecimal(self.feedRate / self.feedRateUnitMultiplier)
+        moveZcmd = "G0 F%s Z%s" % (feed, plainDecimal(newZ))""")], neutral=True)
+V('n-containspoint-rewritten', ['C17', 'C12', 'C01'], [(RR, "        return (x >= self.x1) and (x <= self.x2) and (y >= self.y1) and (y <= self.y2)", "        return not (x < self.x1 or x > self.x2 or y < self.y1 or self.y2 < y)")], neutral=True)
+V('n-on-event-elif-chain', ['C11', 'C13', 'C10'], [(P, """        elif (event in (
+                Events.PRINT_DONE,
+                Events.PRINT_FAILED,
+                Events.PRINT_CANCELLING,
+                Events.PRINT_CANCELLED,
+                Events.ERROR
+        )):""", """        elif (event == Events.PRINT_DONE or event == Events.PRINT_FAILED or event == Events.PRINT_CANCELLING
+              or event == Events.PRINT_CANCELLED or event == Events.ERROR):""")], neutral=True)
+V('n-retraction-helper', ['C04', 'C05', 'C01'], [(R, """            amount = self.extrusionAmount * direction
+            eAxis = position.E_AXIS
+            eAxis.current += amount""", """            eAxis = position.E_AXIS
+            amount = direction * self.extrusionAmount
+            eAxis.current = eAxis.current + amount""")], neutral=True)
+V('n-reset-reordered', ['C10', 'C06'], [(S, """        self.lastRetraction = None
+        self.lastPosition = None
+        self.pendingCommands = OrderedDict()""", """        self.pendingCommands = OrderedDict()
+        self.lastPosition = None
+        self.lastRetraction = None""")], neutral=True)
+V('n-stream-local-var', ['C20'], [(SP, """        if (parsed.eol):
+            self.eol = parsed.eol""", """        lineEnding = parsed.eol
+        if (lineEnding):
+            self.eol = lineEnding""")], neutral=True)
+V('n-planarc-renamed', ['C16', 'C09'], [(H, """        angle = math.atan2(-j, -i)
+        angularIncrement = angularTravel / numSegments
+
+        rval = []
+        for dummy in range(1, numSegments):
+            angle += angularIncrement
+            rval += [centerX + math.cos(angle) * radius, centerY + math.sin(angle) * radius]""", """        theta = math.atan2(-j, -i)
+        step = angularTravel / numSegments
+
+        rval = []
+        for dummy in range(1, numSegments):
+            theta = theta + step
+            rval.extend([centerX + radius * math.cos(theta), centerY + radius * math.sin(theta)])""")], neutral=True)
+V('n-parse-conditional-expression', ['C18'], [(G, """        self._checksum = match.group(10)
+        self._rawChecksum = None
+        if (self._checksum is not None):
+            self._rawChecksum = "*" + self._checksum
+            self._checksum = int(self._checksum)
+            self.text = self.text[:-len(self._rawChecksum)]""", """        checksumText = match.group(10)
+        self._rawChecksum = None if (checksumText is None) else "*" + checksumText
+        self._checksum = None if (checksumText is None) else int(checksumText)
+        if (self._rawChecksum is not None):
+            self.text = self.text[:-len(self._rawChecksum)]""")], neutral=True)
